@@ -334,6 +334,10 @@ CallResult RunCtx::call(Session& s, const CallSpec& c, int stepno, bool monitors
         count(std::string{"fault-configured:"} + io_fault_name(c.sched.fault_kind));
     if (r.ctx.dlopen_refused)
         count("dlopen-refused", r.ctx.dlopen_refused);
+    if (r.ctx.lib_opens)
+        count("library-opened-the-input-file-itself", r.ctx.lib_opens);
+    if (r.ctx.emfile)
+        count("open-refused:EMFILE(descriptor-budget)", r.ctx.emfile);
     count("io-callbacks", r.ctx.io_calls);
     count("allocations-in-calls", r.ctx.allocs);
     if (c.entry != E_WRITE)
